@@ -277,11 +277,14 @@ func (c *Client) Wait() error {
 // Close closes the connection with the MQTT-SN gateway. The client sends
 // a DISCONNECT packet before closing the connection.
 func (c *Client) Close() error {
-	if err := c.Disconnect(); err != nil {
-		return err
-	}
+	// The client must be shut down even if the DISCONNECT could not be
+	// sent or the transaction failed.
+	err := c.Disconnect()
 	c.cancel()
-	return c.conn.Close()
+	if closeErr := c.conn.Close(); err == nil {
+		err = closeErr
+	}
+	return err
 }
 
 func (c *Client) setState(new util.ClientState) {
